@@ -177,6 +177,7 @@ fn crash_check(
     inst: &Inst,
     held: &[Vec<(usize, usize)>],
     inflight: &[(bool, usize)], // per in-flight call: (is_get, frames)
+    base_unheld: usize,         // frames allocated by the setup that no thread holds
     violations: &mut Vec<Violation>,
     step: usize,
 ) {
@@ -225,8 +226,8 @@ fn crash_check(
     let _ = held_frames;
     let slack: usize = inflight.iter().map(|c| c.1).sum();
     if let Ok(s) = guarded(|| rec.alloc.stats()) {
-        if s.free_frames + slack < cfg.frames {
-            v(format!("after recovery and freeing all held blocks only {} of {} frames are free (in-flight calls can account for {slack})", s.free_frames, cfg.frames));
+        if s.free_frames + slack + base_unheld < cfg.frames {
+            v(format!("after recovery and freeing all held blocks only {} of {} frames are free (in-flight calls can account for {slack}, {base_unheld} allocated by the setup and not held)", s.free_frames, cfg.frames));
         }
     }
 }
@@ -262,6 +263,11 @@ pub fn run(sc: &Scenario, strat: &Strategy, crash_every: usize) -> Option<RunRes
     llfree::verif::set_hooks(Some((hook_pre, hook_post)));
 
     let held_init = sc.held.clone();
+    let base_unheld = {
+        let sh = Shadow::from_words(sc.cfg.frames, &initial_shadow_words);
+        let held_frames: usize = held_init.iter().flatten().map(|h| 1usize << h.1).sum();
+        (sc.cfg.frames - sh.free_frames()).saturating_sub(held_frames)
+    };
     let mut violations: Vec<Violation> = vec![];
     let mut known: Vec<String> = vec![];
     let mut choices: Vec<(Vec<usize>, usize)> = vec![];
@@ -480,7 +486,8 @@ pub fn run(sc: &Scenario, strat: &Strategy, crash_every: usize) -> Option<RunRes
                     for e in &ev {
                         match e {
                             Event::CallStart { t: x, text } if *x == t => cur = Some(text.clone()),
-                            Event::Ret { t: x, .. } if *x == t => cur = None,
+                            // a call that panicked (known finding K1) never completed: its frames stay in doubt
+                            Event::Ret { t: x, res } if *x == t && !res.starts_with("panic") => cur = None,
                             _ => {}
                         }
                     }
@@ -494,7 +501,7 @@ pub fn run(sc: &Scenario, strat: &Strategy, crash_every: usize) -> Option<RunRes
                         inflight.push((ws[0] == "get", frames));
                     }
                 }
-                crash_check(inst, &g, &inflight, &mut violations, step);
+                crash_check(inst, &g, &inflight, base_unheld, &mut violations, step);
             }
             if pend[pick].as_ref().is_some_and(|p| is_lower_write(inst, p)) {
                 crash_points += 1;
@@ -551,6 +558,11 @@ pub fn run(sc: &Scenario, strat: &Strategy, crash_every: usize) -> Option<RunRes
                         }
                         freeing_held[*t] = true;
                     }
+                    if freeing_held[*t] {
+                        // the free of a held block takes effect somewhere inside the call: another thread may be
+                        // handed the frames before this call returns, so the ownership model gives them up now
+                        shadow.apply_put(f, o);
+                    }
                 }
             }
             Event::Ret { t, res } => {
@@ -601,7 +613,9 @@ pub fn run(sc: &Scenario, strat: &Strategy, crash_every: usize) -> Option<RunRes
                         let f: usize = ws[1].parse().unwrap();
                         let o: usize = ws[2].parse().unwrap();
                         if res == "ok" {
-                            shadow.apply_put(f, o);
+                            if !freeing_held[*t] {
+                                shadow.apply_put(f, o);
+                            }
                         } else if freeing_held[*t] {
                             violations.push(Violation { prop: "C03", msg: format!("thread {t}: free of held block `{text}` failed: {res}"), line: i });
                         }
